@@ -89,6 +89,23 @@ def check(ctx):
     conj = [v for n_, b in ps for v in (b["M_v"].values if isinstance(b["M_v"], ast.BoolOp) else [b["M_v"]])]
     ok = any(unparse(v) == "(maxes2 < mins2).all()" for v in conj)
     ctx.ob("ORD.strict.presorted", cd, "set_index/sort_values keep the input partitions only if every maximum < the next minimum", ok)
+    # ---------------- a blockwise merge with a single-partition side inherits the OTHER side's divisions only for the
+    # join kinds that keep exactly that side's rows
+    bm = model.klass("dask/dataframe/dask_expr/_merge.py", "BlockwiseMerge").own_methods["_divisions"]
+    want = {"self.right.divisions": ("use_right", "self.left.npartitions == 1", {"right", "inner"}), "self.left.divisions": ("use_left", "self.right.npartitions == 1", {"inner", "left", "leftsemi"})}
+    for r in returns(bm):
+        u = unparse(r.value)
+        if u not in want:
+            continue
+        flag, single, hows = want[u]
+        par = r._parent
+        conj = [unparse(v) for v in (par.test.values if isinstance(par, ast.If) and isinstance(par.test, ast.BoolOp) else [])]
+        got = None
+        for c_ in conj:
+            if c_.startswith("self.how in "):
+                got = set(ast.literal_eval(c_[len("self.how in "):]))
+        ok = flag in conj and single in conj and got == hows
+        ctx.ob("ALG.merge-divisions", r, f"BlockwiseMerge reports {u} only when {flag}, {single} and how in {sorted(hows)}", ok, "" if ok else f"condition is {conj}: for other join kinds the result also holds rows of the single-partition side that lie outside these divisions")
 
 
 VARIANTS = [
